@@ -305,6 +305,25 @@ type Token struct {
 	Entries []SigEntry
 	Payload string
 	Raw     string
+	// the three base64url segments of a compact token (empty otherwise): what
+	// Splice recombines
+	H, P, S string
+}
+
+// Spliceable: a compact token whose segments are known.
+func (t Token) Spliceable() bool { return t.Kind == "compact" && len(t.Entries) == 1 && t.H != "" }
+
+// Splice builds the compact token  header(hx) . payload(py) . signature(sz)  from
+// the segments of three presented / genuinely signed tokens (any of them may be
+// the same token: all three equal = that token again). pm is the description of
+// py's middle segment. The description says what is true of the bytes: the
+// header's alg / kid / protected bytes are hx's, the payload bytes py's, and the
+// signature VALUE is still the one made by sz's signer over sz's header and
+// payload - it verifies only if those coincide with what it is attached to now.
+func Splice(hx, py Token, pm Middle, sz Token) (Token, Middle) {
+	e := SigEntry{Alg: hx.Entries[0].Alg, Kid: hx.Entries[0].Kid, Prot: hx.Entries[0].Prot, Sig: sz.Entries[0].Sig}
+	return Token{Kind: "compact", Entries: []SigEntry{e}, Payload: py.Payload, Raw: hx.H + "." + py.P + "." + sz.S,
+		H: hx.H, P: py.P, S: sz.S}, pm
 }
 
 func (t Token) Coq() string {
@@ -454,7 +473,7 @@ func Build(r drv.Rand, s BuildSpec) (Token, Middle) {
 	sg := sign(s.Signer, s.Alg, s.Kid, typ, s.Mut == "jwk_embed", payload)
 	e := sg.entry
 	compact := func(h, p, sig string, e SigEntry, pl []byte) Token {
-		return Token{Kind: "compact", Entries: []SigEntry{e}, Payload: string(pl), Raw: h + "." + p + "." + sig}
+		return Token{Kind: "compact", Entries: []SigEntry{e}, Payload: string(pl), Raw: h + "." + p + "." + sig, H: h, P: p, S: sig}
 	}
 	tok := compact(sg.h, sg.p, sg.s, e, payload)
 	switch s.Mut {
